@@ -34,6 +34,24 @@ SIGS = {
     'i_iii': 'int(*)(int, int, int)', 'v_p': 'void(*)(int *)', 'h_c': 'short(*)(char)',
     's_i': 'spt_t(*)(int)', 'i_b': 'int(*)(_Bool)',
 }
+
+# signatures with many arguments (more than a handful; more than fit a small on-stack vector)
+def _many(name, types, res):
+    params = ', '.join(types)
+    call = ', '.join('(%s)(x + %d)' % (t, j) for j, t in enumerate(types))
+    decl = '%s call_%s(%s (*cb)(%s), int x);\n' % (res, name, res, params)
+    body = '%s call_%s(%s (*cb)(%s), int x) { return cb(%s); }\n' % (res, name, res, params, call)
+    return decl, body, '%s(*)(%s)' % (res, params)
+
+
+M12 = ['int', 'double', 'long long', 'short', 'double', 'int', 'unsigned char', 'long', 'double', 'int', 'int', 'double']
+MANY = {'i_i9': (['int'] * 9, 'int'), 'i_i20': (['int'] * 20, 'int'), 'd_m12': (M12, 'double'),
+        'i_i70': (['int'] * 70, 'int')}
+for _n in sorted(MANY):
+    _d, _b, _t = _many(_n, *MANY[_n])
+    CDEF += _d
+    SRC += _b
+    SIGS[_n] = _t
 SIGNAMES = sorted(SIGS)
 VARIADIC = 'int(*)(int, ...)'
 
@@ -73,7 +91,13 @@ class Run(object):
     def expected(self, e, args):
         s = e.serial
         if e.raises:
+            if e.sig in MANY:
+                return -7.0 if e.sig == 'd_m12' else -7
             return {'i_i': -7, 'l_ll': -7, 'd_d': -7.0, 'i_iii': -7, 'h_c': -7, 's_i': (0, 0), 'i_b': -7}.get(e.sig)
+        if e.sig == 'd_m12':
+            return float(s) + sum(float(a) * (j + 1) for j, a in enumerate(args))
+        if e.sig in MANY:
+            return (s + sum(a * (j + 1) for j, a in enumerate(args))) % 1000003
         if e.sig == 'i_i':
             return (s * 31 + args[0]) % 1000003
         if e.sig == 'l_ll':
@@ -230,6 +254,11 @@ class Run(object):
         elif sig == 'i_b':
             args = (bool(x % 2),)
             got = lib.call_i_b(e.cb, x % 2) if via == 'C' else e.cb(*args)
+        elif sig in MANY:
+            types = MANY[sig][0]
+            args = tuple((float(x % 50 + j) if t == 'double' else x % 50 + j) for j, t in enumerate(types))
+            got = getattr(lib, 'call_' + sig)(e.cb, x % 50) if via == 'C' else e.cb(*args)
+            self.out.probe('callback_with_%d_arguments' % len(types))
         elif sig == 's_i':
             args = (x % 1000,)
             if via == 'C':
